@@ -261,6 +261,8 @@ impl Property for C16Prop {
             "isolated-code" => check_isolated_code(case, stats),
             "isolated-import" => check_isolated_import(case, stats),
             "shared-adapter" => check_shared_adapter(case, stats),
+            "first-use" => check_first_use(case, stats),
+            "render" => check_render(case, stats),
             "show" => check_show(case, stats),
             "shared-iterator" => check_shared_iterator(case, stats),
             _ => Verdict::Discard("unknown kind"),
@@ -657,6 +659,155 @@ fn check_show(case: &Json, stats: &mut Stats) -> Verdict {
 /// by one atomic `+=` per pull, so at most n pulls are handed an element, each an element of the array
 /// (a pull as a whole is not atomic: which element it reads, and an IndexOutOfBounds error value when
 /// the cursor is advanced past the end between its check and its read, are not violations).
+/// child side of `first-use` (`vcheck C16 child <case.json>`): the first thing this process does with
+/// the interpreter is to run one parsed program from many threads at once
+pub fn child(path: &str) -> i32 {
+    let Ok(text) = std::fs::read_to_string(path) else { return 2 };
+    let Ok(case) = serde_json::from_str::<Json>(&text) else { return 2 };
+    let program = case["text"].as_str().unwrap_or("").to_string();
+    let threads = case["threads"].as_u64().unwrap_or(16) as usize;
+    let interp = run::interpreter(case["stdlib"].as_bool().unwrap_or(false));
+    let code = match run::parse_guarded(&interp, &program) {
+        Ok(Ok(code)) => code,
+        _ => return 2,
+    };
+    let barrier = Arc::new(Barrier::new(threads));
+    let outs: Vec<String> = std::thread::scope(|scope| {
+        let handles: Vec<_> = (0..threads)
+            .map(|_| {
+                let (barrier, code) = (barrier.clone(), &code);
+                scope.spawn(move || {
+                    run::default_budget();
+                    barrier.wait();
+                    match run::exec_guarded(code) {
+                        Outcome::Value(v) => format!("value {}", canon::canon(&v).show()),
+                        o => o.short(),
+                    }
+                })
+            })
+            .collect();
+        handles.into_iter().map(|h| h.join().unwrap_or_else(|_| "worker died".into())).collect()
+    });
+    for o in outs {
+        println!("{}", serde_json::to_string(&o).unwrap());
+    }
+    0
+}
+
+/// The first use of an operator in a process made by many threads at once (whatever the
+/// implementation builds lazily for it is built under the race): every run gives what a run gives
+/// when nothing races. One fresh process per repetition.
+fn check_first_use(case: &Json, stats: &mut Stats) -> Verdict {
+    let text = case["text"].as_str().unwrap_or("");
+    let stdlib = case["stdlib"].as_bool().unwrap_or(false);
+    let reps = case["reps"].as_u64().unwrap_or(2) as usize;
+    run::default_budget();
+    let expected = match run::run_text(text, stdlib) {
+        Outcome::Value(v) => format!("value {}", canon::canon(&v).show()),
+        Outcome::Rejected(_) => return Verdict::Discard("program needs the standard library"),
+        o => return fail("C16:setup", format!("`{text}`: {}", o.short())),
+    };
+    let dir = std::env::temp_dir().join(format!("vcheck-c16-{}", std::process::id()));
+    if std::fs::create_dir_all(&dir).is_err() {
+        return Verdict::Inconclusive("scratch directory");
+    }
+    static N: std::sync::atomic::AtomicU64 = std::sync::atomic::AtomicU64::new(0);
+    let file = dir.join(format!("case{}.json", N.fetch_add(1, std::sync::atomic::Ordering::Relaxed)));
+    if std::fs::write(&file, case.to_string()).is_err() {
+        return Verdict::Inconclusive("scratch file");
+    }
+    let exe = if std::path::Path::new("/proc/self/exe").exists() { std::path::PathBuf::from("/proc/self/exe") } else { std::env::current_exe().unwrap_or_default() };
+    for rep in 0..reps {
+        let out = std::process::Command::new(&exe).args(["C16", "child"]).arg(&file).stdin(std::process::Stdio::null()).stderr(std::process::Stdio::null()).output();
+        let Ok(out) = out else {
+            let _ = std::fs::remove_file(&file);
+            return Verdict::Inconclusive("child process");
+        };
+        let lines: Vec<String> = String::from_utf8_lossy(&out.stdout).lines().filter_map(|l| serde_json::from_str::<String>(l).ok()).collect();
+        if !out.status.success() || lines.is_empty() {
+            let _ = std::fs::remove_file(&file);
+            return Verdict::Inconclusive("child process did not finish");
+        }
+        stats.evals(lines.len() as u64);
+        if let Some(bad) = lines.iter().find(|l| **l != expected) {
+            let _ = std::fs::remove_file(&file);
+            let wrong = lines.iter().filter(|l| **l != expected).count();
+            return fail(
+                "C16:first-use:result",
+                format!("`{text}` run by {} threads at once as the first thing a fresh process does (repetition {rep}): {wrong} runs differ, e.g. {bad}; a run alone gives {expected}", lines.len()),
+            );
+        }
+    }
+    let _ = std::fs::remove_file(&file);
+    stats.nontrivial(&case.to_string());
+    stats.label("first use of an operator by many threads in a fresh process");
+    stats.sample(2, || json!({"workload": case}));
+    Verdict::Pass
+}
+
+/// Threads that share nothing render their own nested values (host Debug / Display, and
+/// `std.convert.to_string` inside a running program) at the same time: each gets the text it gets alone.
+fn check_render(case: &Json, stats: &mut Stats) -> Verdict {
+    let threads = case["threads"].as_u64().unwrap_or(8) as usize;
+    let iters = case["iters"].as_u64().unwrap_or(2000) as usize;
+    let values = [
+        "[[[[1, 2], [3]], [[4]]], [[[5, 6]]]]",
+        "((1, (2, (3, (4, \"s\")))), [[[2.5]]])",
+        "struct{a := struct{b := struct{c := [[1, 2], [3]]}}, d := (1, [2, [3]])}",
+        "[mut [mut [1, 2]], mut [mut [3]]]",
+        "[[(1, [2, (3, [4])])]]",
+    ];
+    let mut alone = vec![];
+    for v in values {
+        match run::run_text(v, true) {
+            Outcome::Value(x) => alone.push((v, format!("{x:?}"), x.to_string())),
+            o => return fail("C16:setup", format!("`{v}`: {}", o.short())),
+        }
+    }
+    let barrier = Arc::new(Barrier::new(threads));
+    let results: Vec<Option<String>> = std::thread::scope(|scope| {
+        let handles: Vec<_> = (0..threads)
+            .map(|t| {
+                let (barrier, alone) = (barrier.clone(), &alone);
+                scope.spawn(move || {
+                    run::default_budget();
+                    let (text, debug, display) = &alone[t % alone.len()];
+                    let value = match run::run_text(text, true) {
+                        Outcome::Value(x) => x,
+                        o => return Some(format!("`{text}`: {}", o.short())),
+                    };
+                    // the same rendering from inside a program
+                    let program = format!("x := {text}; want := std.convert.to_string(x); n := mut 0; k := mut 0; while *k < 300 {{ if std.convert.to_string(x) != want {{ n += 1; }}; k += 1; }}; *n");
+                    barrier.wait();
+                    for i in 0..iters {
+                        let (d, s) = (format!("{value:?}"), value.to_string());
+                        if d != *debug || s != *display {
+                            return Some(format!("thread {t}, rendering {i} of its own value `{text}`: {d} / {s}; alone: {debug} / {display}"));
+                        }
+                        if i % 400 == 0 {
+                            run::default_budget();
+                            match run::run_text(&program, true) {
+                                Outcome::Value(Variable::Int(0)) => {}
+                                o => return Some(format!("thread {t}: `{program}` gave {} (the number of renderings that differed from the first)", o.short())),
+                            }
+                        }
+                    }
+                    None
+                })
+            })
+            .collect();
+        handles.into_iter().map(|h| h.join().unwrap_or_else(|_| Some("worker died".into()))).collect()
+    });
+    stats.evals((threads * iters) as u64);
+    stats.nontrivial(&case.to_string());
+    stats.label("render: nested values rendered by several threads at once");
+    if let Some(why) = results.into_iter().flatten().next() {
+        return fail("C16:render:text", why);
+    }
+    stats.sample(1, || json!({"workload": case}));
+    Verdict::Pass
+}
+
 /// One iterator adapter (`?` predicate, `? type`, `@`, a chain of them) over a source that hands out
 /// tickets with one atomic `c += 1`, pulled by several threads until it is exhausted: the adapters keep
 /// no state of their own between pulls, so together the threads receive exactly the elements a single
@@ -1343,6 +1494,23 @@ pub fn run(session: &Session) -> i32 {
         cases.push(json!({"kind": "isolated-code", "which": which, "threads": 8, "reps": if which < ISOLATED_CODE.len() { session.tier.of(6, 40) } else { session.tier.of(2, 10) }}));
     }
     cases.push(json!({"kind": "isolated-import", "threads": 6, "reps": session.tier.of(3, 20)}));
+    cases.push(json!({"kind": "render", "threads": 8, "iters": session.tier.of(2000, 20000)}));
+    {
+        let it = "k := mut 0; it := () -> (bool, int) { k += 1; return (*k < 4, *k); }; ";
+        let bt = "k := mut 0; it := () -> (bool, bool) { k += 1; return (*k < 4, *k < 9); }; ";
+        for (text, stdlib) in [
+            (format!("{it}it $*"), false), (format!("{it}it $+"), false), (format!("{it}it $&"), false), (format!("{it}it $|"), false),
+            (format!("{bt}it $&&"), false), (format!("{bt}it $||"), false), (format!("{it}it $]"), false),
+            (format!("{it}it @ (x: int) -> int {{ return x * 2; }} $]"), false), (format!("{it}it ? (x: int) -> bool {{ return x > 1; }} $]"), false),
+            (format!("{it}it ? int $]"), false), (format!("{it}it \\ (x: int) -> bool {{ return x > 1; }}"), false),
+            (format!("{it}it $ 0 (a: int, x: int) -> int {{ return a + x; }}"), false), (format!("{it}r := mut 0; for x in it {{ r += x; }}; *r"), false),
+            ("[1, 2, 3]~ $*".to_string(), false), ("[1.5, 2.0]~ $*".to_string(), false), ("[\"a\", \"b\"]~ $+".to_string(), false), ("[1, 2, 3][1:]~ $]".to_string(), false),
+            ("std.len(\"abc\") + std.len([1])".to_string(), true), ("std.convert.to_string([1, (2, \"s\")])".to_string(), true), ("std.string.split(\"a,b\", \",\")".to_string(), true),
+            ("[3, 1, 2]~ $*".to_string(), true), ("x := [mut 1]~; (x().1, x())".to_string(), true),
+        ] {
+            cases.push(json!({"kind": "first-use", "text": text, "stdlib": stdlib, "threads": 16, "reps": session.tier.of(2, 10)}));
+        }
+    }
     for adapter in ["filter", "map", "type-filter", "chain"] {
         // long streams (races anywhere) and very short ones (races at the end)
         cases.push(json!({"kind": "shared-adapter", "adapter": adapter, "threads": 4, "n": 4000, "rounds": session.tier.of(3, 20)}));
